@@ -26,6 +26,14 @@ ImplDev == {"PauseRace", "StepOutReadsTopOfStack"}
 RaceDev == {"PauseRace"}
 StepOutDev == {"StepOutReadsTopOfStack"}
 NextDev == {"NextIgnoresCallDepth"}
+(* 1 lda #5 / 2 jsr s / 3 nop / 4 brk / 5 s: pha / 6 iny / 7 pla / 8 jsr inner / 9 iny / 10 rts / 11 inner: inx / 12 rts *)
+ProgPushCall == <<I("lda", 5), I("jsr", 5), I("nop", 0), I("brk", 0), I("pha", 0), I("iny", 0), I("pla", 0), I("jsr", 11), I("iny", 0), I("rts", 0), I("inx", 0), I("rts", 0)>>
+Id12 == <<1, 2, 3, 4, 5, 6, 7, 8, 9, 10, 11, 12>>
+BpsPushCall == {{6}}
+SpDev == {"StepOutComparesStackDepth"}
+StepRunDev == {"ClientStepsWhileRunning", "StepRacesMachineThread"}
+StepRaceOnly == {"StepRacesMachineThread"}
+StepRunOnly == {"ClientStepsWhileRunning"}
 SwallowDev == {"StepSwallowsTestEnd"}
 FilesDev == {"SetBreakpointsForgetsOtherFiles"}
 (* 1 nop / 2 brk ; 1 nop / 2 <failing assertion> nop / 3 brk *)
